@@ -120,6 +120,7 @@ type c10Hist struct {
 	stop      bool
 
 	nAck, nExhaust, nRestart, nStaticOK, nStaticRej, nExpired, nReclaim int
+	nRestartBad                                                         int
 }
 
 const (
@@ -134,6 +135,8 @@ const (
 	c10StRm     = "static-remove"
 	c10Advance  = "advance"
 	c10Restart  = "restart"
+	// c10RestartBad is a restart during which leases.json cannot be read.
+	c10RestartBad = "restart-unreadable-db"
 )
 
 var c10HostPool = []string{"alpha", "beta", "Alpha", "my host", "gamma", "my_host", "printer", "BETA"}
@@ -199,6 +202,9 @@ func TestVerifC10(t *testing.T) {
 		if h.nReclaim > 0 {
 			rep.Class("histories_with_reclaimed_address")
 		}
+		if h.nRestartBad > 0 {
+			rep.Class("histories_with_unreadable_db_restart")
+		}
 		if i < 2 {
 			rep.Sample(map[string]any{"config": h.cfg, "steps": h.trace})
 		}
@@ -206,10 +212,13 @@ func TestVerifC10(t *testing.T) {
 
 	for _, ev := range []string{"reply:ack", "reply:offer", "discover_refused_pool_exhausted", "restarts",
 		"static_op_rejected", "static_op_accepted", "db_entries_crossing_restart", "acked_leases_expired",
-		"address_reused_after_expiry_or_release"} {
+		"address_reused_after_expiry_or_release", "restart_unreadable_db_steps"} {
 		if rep.EventCount(ev) == 0 {
 			rep.Inconcl("event never observed: " + ev)
 		}
+	}
+	if rep.ClassCount("restart-unreadable-db:with-stored-leases") == 0 {
+		rep.Inconcl("no restart with an unreadable database happened while leases were stored")
 	}
 }
 
@@ -490,7 +499,7 @@ func (h *c10Hist) step() {
 		kind string
 		w    int
 	}{{c10Discover, 22}, {c10Select, 22}, {c10Reboot, 6}, {c10Renew, 8}, {c10Decline, 4}, {c10Release, 6},
-		{c10StAdd, 8}, {c10StUpd, 3}, {c10StRm, 4}, {c10Advance, 12}, {c10Restart, 5}}
+		{c10StAdd, 8}, {c10StUpd, 3}, {c10StRm, 4}, {c10Advance, 12}, {c10Restart, 5}, {c10RestartBad, 1}}
 	total := 0
 	for _, w := range weights {
 		total += w.w
@@ -612,6 +621,96 @@ func (h *c10Hist) step() {
 		}
 	case c10Restart:
 		h.checkReload(true)
+	case c10RestartBad:
+		h.restartUnreadable()
+	}
+}
+
+// restartUnreadable restarts the server while leases.json cannot be read (for
+// a reason other than its absence).  The server may refuse to start; then the
+// file is put back and a normal restart follows.  If it starts, it must have
+// the table it had before, like after any other restart.
+func (h *c10Hist) restartUnreadable() {
+	s := h.cur
+	path := filepath.Join(h.dir, "data", dataFilename)
+	aside := path + ".aside"
+	moved := false
+	if _, err := os.Lstat(path); err == nil {
+		if err = os.Rename(path, aside); err != nil {
+			h.rep.Inconcl("cannot move leases.json aside: " + err.Error())
+			h.stop = true
+
+			return
+		}
+		moved = true
+	}
+	// Permissions do not stop root, so put something else at the path.
+	var err error
+	if h.rng.Intn(2) == 0 {
+		s.Var = "directory-at-path"
+		err = os.Mkdir(path, 0o755)
+	} else {
+		s.Var = "symlink-to-itself"
+		err = os.Symlink(dataFilename, path)
+	}
+	restore := func() bool {
+		rerr := os.Remove(path)
+		if rerr == nil && moved {
+			rerr = os.Rename(aside, path)
+		}
+		if rerr != nil {
+			h.rep.Inconcl("cannot put leases.json back: " + rerr.Error())
+			h.stop = true
+		}
+
+		return rerr == nil
+	}
+	if err == nil {
+		_, rerr := os.ReadFile(path)
+		if rerr == nil || os.IsNotExist(rerr) {
+			err = fmt.Errorf("reading the obstacle gives %v", rerr)
+		} else {
+			s.Reply = "read error: " + rerr.Error()
+		}
+	}
+	if err != nil {
+		h.rep.Inconcl("cannot make leases.json unreadable (" + s.Var + "): " + err.Error())
+		h.stop = true
+		restore()
+
+		return
+	}
+	h.rep.Event("restart_unreadable_db_steps")
+	h.rep.Class("restart-unreadable-db:" + s.Var)
+	if moved {
+		h.rep.Class("restart-unreadable-db:with-stored-leases")
+	} else {
+		h.rep.Class("restart-unreadable-db:nothing-stored-yet")
+	}
+	h.nRestartBad++
+
+	ns, nv4, cerr := h.create()
+	if cerr != nil {
+		// Refusing to start loses nothing.
+		s.Reply += "; Create refused: " + cerr.Error()
+		h.rep.Class("restart-unreadable-db:refused")
+		if restore() {
+			h.checkReload(true)
+		}
+
+		return
+	}
+	s.Reply += "; Create succeeded"
+	h.rep.Class("restart-unreadable-db:started")
+	// The obstacle goes away before anything is compared or stored, so that
+	// the new server, if it is kept, works on the original file.
+	if !restore() {
+		return
+	}
+	h.compareReload(true, ns, nv4, "restart-unreadable-db:started-with-different-table",
+		"the server started although leases.json could not be read ("+s.Var+"), and")
+	if !h.stop {
+		h.rep.Class("restart-unreadable-db:started-with-same-table")
 	}
 }
 
@@ -1338,6 +1437,13 @@ func (h *c10Hist) view(s *server, hosts []string) (v c10View) {
 // what it answers with what the running one answers.  With swap the new
 // server replaces the running one (a restart); otherwise it is dropped.
 func (h *c10Hist) checkReload(swap bool) {
+	h.compareReload(swap, nil, nil, "", "")
+}
+
+// compareReload is checkReload with, optionally, a server that has been
+// created already (ns non-nil); differences are then reported under diffKey
+// with what prepended.
+func (h *c10Hist) compareReload(swap bool, ns *server, nv4 *v4Server, diffKey, what string) {
 	after := ":after-" + h.cur.Kind
 	mem := h.internal()
 	hostSet := map[string]bool{}
@@ -1383,11 +1489,14 @@ func (h *c10Hist) checkReload(swap bool) {
 		h.rep.Event("reload_probes")
 	}
 	before := h.view(h.srv, hosts)
-	ns, nv4, err := h.create()
-	if err != nil {
-		h.viol("restart-fails"+after, "Create on the same directory failed: "+err.Error(), nil)
+	if ns == nil {
+		var err error
+		ns, nv4, err = h.create()
+		if err != nil {
+			h.viol("restart-fails"+after, "Create on the same directory failed: "+err.Error(), nil)
 
-		return
+			return
+		}
 	}
 	afterV := h.view(ns, hosts)
 
@@ -1437,8 +1546,12 @@ func (h *c10Hist) checkReload(swap bool) {
 	cmp("ip-by-host", before.IP, afterV.IP, greyHost)
 	cmp("mac-by-ip", before.MAC, afterV.MAC, nil)
 	if len(diffs) > 0 {
-		h.viol("restart-changes-"+diffs[0].What+after,
-			fmt.Sprintf("after a reload of leases.json %s(%s) is %q, before it was %q", diffs[0].What, diffs[0].Key, diffs[0].After, diffs[0].Before),
+		key, pre := "restart-changes-"+diffs[0].What+after, "after a reload of leases.json"
+		if diffKey != "" {
+			key, pre = diffKey, what
+		}
+		h.viol(key,
+			fmt.Sprintf("%s %s(%s) is %q, before it was %q", pre, diffs[0].What, diffs[0].Key, diffs[0].After, diffs[0].Before),
 			map[string]any{"differences": diffs, "internal_table_before": c10LeaseStrs(mem)})
 
 		return
